@@ -11,11 +11,17 @@ import (
 
 // verifMemDir builds a real MemDir holding nf files of ns statements with a
 // valid sum file. Statement j of file i is "S<i>_<j>".
-func verifMemDir(nf, ns int) (*MemDir, [][]string) {
+func verifMemDir(nf, ns int) (*MemDir, [][]string) { return verifMemDirCk(nf, ns, -1) }
+
+// verifMemDirCk: file ck (if >= 0) is tagged as a checkpoint.
+func verifMemDirCk(nf, ns, ck int) (*MemDir, [][]string) {
 	d := &MemDir{}
 	all := make([][]string, nf)
 	for i := 0; i < nf; i++ {
 		content := ""
+		if i == ck {
+			content = "-- atlas:checkpoint\n\n"
+		}
 		for j := 0; j < ns; j++ {
 			st := fmt.Sprintf("S%d_%d", i, j)
 			all[i] = append(all[i], st+";")
@@ -35,12 +41,27 @@ func verifMemDir(nf, ns int) (*MemDir, [][]string) {
 	return d, all
 }
 
-func verifC09(maxF, maxS, faultyRuns int) {
+func verifC09(maxF, maxS, faultyRuns int) { verifC09ck(maxF, maxS, faultyRuns, false) }
+
+// verifC09ck: with checkpoints, any one file may be a checkpoint: the first run on
+// the empty database starts there, the files before it are never executed.
+func verifC09ck(maxF, maxS, faultyRuns int, checkpoints bool) {
 	nf := verifChoice("files", maxF) + 1
 	ns := verifChoice("stmts", maxS) + 1
-	dir, all := verifMemDir(nf, ns)
+	ck := -1
+	if checkpoints {
+		ck = verifChoice("checkpoint", nf+1) - 1
+		if ck >= 0 {
+			verifReach("checkpoint")
+		}
+	}
+	dir, all := verifMemDirCk(nf, ns, ck)
+	first := 0
+	if ck > 0 {
+		first = ck
+	}
 	var flat []string
-	for _, f := range all {
+	for _, f := range all[first:] {
 		flat = append(flat, f...)
 	}
 	ctx := context.Background()
@@ -120,7 +141,7 @@ func verifC09(maxF, maxS, faultyRuns int) {
 			for _, r := range rrw.revs {
 				verifAssert(r.Applied == r.Total && r.Total == ns, "after the clean run every file is fully applied")
 			}
-			verifAssert(len(rrw.revs) == nf, "after the clean run every file has a revision")
+			verifAssert(len(rrw.revs) == nf-first, "after the clean run every executed file has a revision")
 		}
 	}
 	// global order: the concatenation over runs never skips a statement
@@ -148,4 +169,5 @@ func verifC09(maxF, maxS, faultyRuns int) {
 }
 
 func VerifHarness_C09_quick()    { verifC09(2, 3, 2) }
+func VerifHarness_C09_ckpt()     { verifC09ck(3, 2, 1, true) }
 func VerifHarness_C09_thorough() { verifC09(3, 3, 2) }
